@@ -7,7 +7,7 @@ from ..srcmodel import AnalysisError, site
 from ..automat_x import Program
 from ..astutil import dotted, const, params, local_defs, is_self_attr, calls_named, same_expr, walk_shallow, enclosing_function, resolve_local
 from ..dataflow import expand, expand_flow, call_arg
-from ..effects import class_writers, is_const
+from ..effects import class_writers, is_const, is_empty_ctor
 from ..cfg import build, truthy_atom, cmp_atom, in_atom, none_atom
 from ..tablerules import output_raises, row_calls
 from ..selftest import Mutant, Rewrite
@@ -506,7 +506,62 @@ def r5(tree, rep):
     rep.check("C19.R5", "Boss.allocate_code passes the requested length and the PGP word list", ok, site(ba, BOSS), key="C19.R5:Boss.allocate_code")
 
 
+RLC = "src/wormhole/_rlcompleter.py"
+
+
+def r6(tree, rep):
+    """interactive entry hands the code it was given to the input helper, or fails: CodeInputter.finish never swallows what
+    choose_nameplate / choose_words raise (a nameplate chosen earlier - by a TAB that got as far as the claim - stays the nameplate:
+    entering another one must fail, not silently become the first)"""
+    fn = tree.func(RLC, "CodeInputter", "finish")
+    calls = [c for c in ast.walk(fn) if isinstance(c, ast.Call) and any(
+        isinstance(x, ast.Attribute) and x.attr in ("choose_nameplate", "choose_words") for x in ast.walk(c))]
+    if len(calls) < 2:
+        raise AnalysisError("CodeInputter.finish no longer calls choose_nameplate / choose_words")
+    bad = []
+    for t in [n for n in ast.walk(fn) if isinstance(n, ast.Try)]:
+        if not any(c in list(ast.walk(b)) for b in t.body for c in calls):
+            continue
+        for h in t.handlers:
+            g = build(fn)
+            hn = g.node_of(h)
+            raises = g.nodes(lambda st: isinstance(st, ast.Raise))
+            if hn is None or not g.must_pass(raises, start=hn, to=[g.exit], explicit_only=True):
+                bad.append(h)
+    rep.check("C19.R6", "CodeInputter.finish lets every error of choose_nameplate / choose_words reach the caller (%d helper calls)" % len(calls),
+              not bad, site(bad[0] if bad else fn, RLC), key="C19.R6:finish:errors-propagate",
+              what="CodeInputter.finish swallows an error raised by the input helper (%s): the code that is finally used can differ from the "
+                   "code the user entered" % (ast.unparse(bad[0].type) if bad and bad[0].type is not None else "bare except"))
+
+
+def r7(tree, rep):
+    """the nameplates offered for completion are those of the latest listing: Input._all_nameplates is replaced (not merged) by the
+    listing it is given"""
+    own, foreign = class_writers(tree, "Input", "_all_nameplates")
+    fn = tree.func(INP, "Input", "record_nameplates")
+    ps = params(fn)
+    ok = not foreign and bool(own)
+    n_assign = 0
+    for w in own:
+        if w.fn in ("__init__", "__attrs_post_init__"):
+            ok = ok and w.kind == "assign" and is_empty_ctor(w.value, ("set", "list", "frozenset"))
+        elif w.fn == "record_nameplates" and w.kind == "assign":
+            n_assign += 1
+            v = w.value
+            while isinstance(v, ast.Call) and isinstance(v.func, ast.Name) and v.func.id in ("set", "frozenset", "sorted", "list", "tuple") and len(v.args) == 1:
+                v = v.args[0]
+            ok = ok and isinstance(v, ast.Name) and v.id in ps and not local_defs(fn, v.id)
+        else:
+            ok = False
+    rep.check("C19.R7", "Input._all_nameplates is replaced by each listing (assigned from record_nameplates' parameter; never merged or updated)",
+              ok and n_assign == 1, own[0].site if own else INP, key="C19.R7:_all_nameplates:replaced",
+              what="nameplates of an earlier listing stay on offer after the server released them (writers: %s): a completion can name a "
+                   "nameplate nobody is waiting on" % [w.brief() for w in own + foreign])
+
+
 def run(tree, rep, tier):
+    r6(tree, rep)
+    r7(tree, rep)
     r1(tree, rep)
     r2(tree, rep)
     r3(tree, rep)
